@@ -326,6 +326,15 @@ def bfAmount : List J → Int × MultiAsset → Res (Int × MultiAsset)
   | [], st => .ok st
   | item :: rest, st => do bfAmount rest (← bfItem item st)
 
+/-- `JSON_TAG_TO_INT` of pycardano/nativescript.py -/
+def nativeTags : List String := ["sig", "all", "any", "atLeast", "after", "before"]
+
+/-- `NativeScript.from_dict(sj)`: its first step `JSON_TAG_TO_INT[sj["type"]]` decides accept / reject here;
+the rest of the conversion is opaque (the JSON subtree is carried) -/
+def nativeJson (sj : J) : Res Payload := do
+  let ty ← (← sj.field "type").asStr
+  if nativeTags.contains ty then pure (.json sj) else throw .key
+
 /-- `script_type.lower().startswith("plutusv")` -/
 def isPlutusType (ty : String) : Bool := (ty.toList.map Char.toLower).take 7 = "plutusv".toList
 
@@ -346,7 +355,7 @@ def bfScript (side : Side) (h : String) : Res ScriptM := do
     let b ← fromHex (← (← s.field "cbor").asStr)
     if 1 ≤ v ∧ v ≤ 3 then pure ⟨v.toNat, .bytes b⟩ else throw .value       -- PlutusScript.from_version
   else
-    pure ⟨0, .json (← s.field "json")⟩                                     -- NativeScript.from_dict
+    pure ⟨0, ← nativeJson (← s.field "json")⟩                              -- NativeScript.from_dict
 
 /-- `DatumHash.from_primitive(x) if x else None` -/
 def hashIfTruthy (dh : J) : Res (Option Bytes) :=
@@ -659,6 +668,15 @@ def parse_ogmios_v6 (r : J) : Res UTxOModel := do
   let cm ← v6Value value
   pure ⟨ti.1, ti.2, address, cm.1, cm.2, datumHash, datum, script⟩
 
+/-- `utxos = []; for result in results: utxos.append(convert(result))` — the loop every adapter runs over the
+entries of one response -/
+def parseList {α : Type} (f : J → Res α) : List J → Res (List α)
+  | [] => .ok []
+  | j :: rest => do
+    let a ← f j
+    let as ← parseList f rest
+    pure (a :: as)
+
 /-! ## cardano-cli (cardano_cli.py:411-483) -/
 
 def cliScriptType (lang : Nat) : String :=
@@ -720,7 +738,7 @@ def cliScript (rs : J) : Res ScriptM := do
   let ty ← (← sj.field "type").asStr
   if ty = "PlutusScriptV1" then pure ⟨1, .bytes (← fromHex (← (← sj.field "cborHex").asStr))⟩
   else if ty = "PlutusScriptV2" then pure ⟨2, .bytes (← fromHex (← (← sj.field "cborHex").asStr))⟩
-  else pure ⟨0, .json sj⟩
+  else pure ⟨0, ← nativeJson sj⟩
 
 /-- `tx_id, tx_idx = tx_hash.split("#")`, `TransactionInput.from_primitive([tx_id, int(tx_idx)])` -/
 def cliTxIn (key : String) : Res (Bytes × Int) := do
